@@ -217,6 +217,12 @@ impl<R: Read> BufRead for FixedReader<'_, R> {
             return Ok(&[]);
         }
         let buf = self.inner.fill_buf()?;
+        if buf.is_empty() {
+            return Err(io::Error::new(
+                ErrorKind::UnexpectedEof,
+                "fixed body truncated",
+            ));
+        }
         let len = min(buf.len(), self.remaining);
         Ok(&buf[..len])
     }
